@@ -10,7 +10,7 @@
    with these specifications by tools/props/c15.py. *)
 From Coq Require Import List Bool ZArith QArith.
 From Similari Require Import Base.Num Model.Geom.
-From SimilariGen Require Import Consts.
+From SimilariGen Require Import Consts Scalar ScalarBox ScalarOwnArea.
 Import ListNotations.
 
 (* ------------------------------------------------------------------------------------------ *)
@@ -97,7 +97,10 @@ Fixpoint uncovered (p : list (pt num)) (others : list (list (pt num))) : F :=
               (match pin with [] => zero num | _ => uncovered pin rest end)
   end.
 
-(* bbox_own_areas.rs:43-44   (area / (b.area() + EPS)) clamped: if e >= 1.0 {1.0} else {e} *)
+(* bbox_own_areas.rs:43-44   (area / (b.area() + EPS)) clamped: if e >= 1.0 {1.0} else {e}.
+   [own_shares_ie] below calls the TRANSLATED own_share_raw / own_share_clamp (gen/ScalarOwnArea.v); this hand version
+   (own area as a plain number) is what the range lemma is stated on and is proved equal to the translated text
+   (Props/C15.v share_normalise_is_translation). *)
 Definition share_normalise (own area : F) : F :=
   let e := div num own (add num area (of_Q num EPS)) in
   if leb num (one num) e then one num else e.
@@ -117,7 +120,7 @@ Definition own_area_ie (boxes : list (box num)) (i : nat) (b : box num) : F :=
   uncovered (rect_vertices num b) (map (rect_vertices num) (near_others boxes i)).
 
 Definition own_shares_ie (boxes : list (box num)) : list F :=
-  map (fun ib => share_normalise (own_area_ie boxes (fst ib) (snd ib)) (box_area num (snd ib)))
+  map (fun ib => own_share_clamp num (own_share_raw num (to_ubox num (snd ib)) (own_area_ie boxes (fst ib) (snd ib))))
       (combine (seq 0 (length boxes)) boxes).
 
 End OwnIE.
